@@ -171,6 +171,10 @@ def run_load(tree, sc, loader=None, meta=None):
                                                 "infile": "INFILE", "ncells": 99, "nparticles": 77, "lmax": 1}
     hooks = core_hooks({
         "numpy.array": lambda x, *a, **k: RawTok(("array", tuple(tok_origin(e) for e in x), tuple(type(e).__name__ for e in x)), (4,)) if isinstance(x, (list, tuple)) else x,
+        "numpy.ones": lambda n, *a, **k: [True] * n if isinstance(n, int) else (_ for _ in ()).throw(Unsupported("np.ones(%r)" % (n,))),
+        "numpy.zeros": lambda n, *a, **k: [False] * n if isinstance(n, int) else (_ for _ in ()).throw(Unsupported("np.zeros(%r)" % (n,))),
+        "numpy.arange": lambda *a, **k: list(range(*a)) if all(isinstance(x, int) for x in a) else (_ for _ in ()).throw(Unsupported("np.arange%r" % (a,))),
+        "numpy.asarray": lambda x, *a, **k: x, "numpy.atleast_1d": lambda x, *a, **k: x if isinstance(x, (list, tuple)) else [x],
         "numpy.prod": and_of, "numpy.logical_and.reduce": and_of, "numpy.all": and_of,
         "numpy.sum": lambda sel, *a, **k: tr.append(("count", tok_origin(sel))) or sc["ncells_fn"](sel),
         "numpy.count_nonzero": lambda sel, *a, **k: tr.append(("count", tok_origin(sel))) or sc["ncells_fn"](sel),
@@ -246,12 +250,32 @@ def first_diff(got, want):
 
 
 
+class LevelPred(Model):
+    """a user predicate on the level: accepts the levels 2 .. cap (a lower bound: level 1 is rejected).  Applied to concrete level numbers it
+    answers concretely; applied to a buffer token it gives a mask token"""
+
+    def __init__(self, lo=2, hi=2):
+        self.lo, self.hi = lo, hi
+
+    def __call__(self, x):
+        if isinstance(x, (list, tuple)) and all(isinstance(v, int) and not isinstance(v, bool) for v in x):
+            return [self.lo <= v <= self.hi for v in x]
+        if isinstance(x, int) and not isinstance(x, bool):
+            return self.lo <= x <= self.hi
+        return ArrTok(("levelpred", tok_origin(x)), "dimensionless", getattr(x, "shape", (4,)))
+
+    def __repr__(self):
+        return "F"
+
+
+F_PRED = LevelPred()
+
 SCENARIOS = [
     # label, overrides, expected: active readers (in order), cpu list, lmax, per-kind select
     ("no selection, all mesh readers and particles", {}, dict(active=["amr", "hydro", "part"], cpus=[1, 2], lmax=3, select=lambda kind: {})),
     ("level/variable predicates on the mesh, unknown group in select, Hilbert pre-selection",
-     dict(select={"mesh": {"level": "F", "density": "G"}, "bogus": {"x": 1}}, hilbert_cpu_list=[2]),
-     dict(active=["amr", "hydro", "part"], cpus=[2], lmax=2, select=lambda kind: {"level": "F", "density": "G"} if kind == "mesh" else {}, cap=True)),
+     dict(select={"mesh": {"level": F_PRED, "density": "G"}, "bogus": {"x": 1}}, hilbert_cpu_list=[2]),
+     dict(active=["amr", "hydro", "part"], cpus=[2], lmax=2, select=lambda kind: {"level": F_PRED, "density": "G"} if kind == "mesh" else {}, cap=True)),
     ("predicate on a mesh variable other than level: no level cap",
      dict(select={"mesh": {"density": "G"}}),
      dict(active=["amr", "hydro", "part"], cpus=[1, 2], lmax=3, select=lambda kind: {"density": "G"} if kind == "mesh" else {}, cap=False)),
@@ -455,9 +479,9 @@ def check_load_space(run, tree):
                     over["cpu_list"] = [ncpu]
                     cpus = [ncpu]
                 if with_level:
-                    over["select"] = {"mesh": {"level": "F"}}
+                    over["select"] = {"mesh": {"level": F_PRED}}
                 exp = dict(active=["amr", "hydro", "part"], cpus=cpus, lmax=over["level_cap"] if with_level else levelmax,
-                           select=(lambda kind: {"level": "F"} if kind == "mesh" else {}) if with_level else (lambda kind: {}), cap=True if with_level else None)
+                           select=(lambda kind: {"level": F_PRED} if kind == "mesh" else {}) if with_level else (lambda kind: {}), cap=True if with_level else None)
                 sc = scenario(**over)
                 sc["reader_kinds"] = kinds
                 exp["lmax_meta"] = sc["level_cap"] if exp.get("cap") else sc["levelmax"]
